@@ -37,6 +37,15 @@ ASSUMPTIONS = [
     "construction on the same objects is judged against the model on the objects as the user made them (DieInput.session), and when "
     "the harness sees an argument modified it constructs twice more (with / without the netlist); an open stream is rewound "
     "(seek(0)) by the harness between uses, a stream found closed is opened again",
+    "netlist history: 'the fixed rectangles of the attached netlist' are the rectangles of the netlist's modules whose is_fixed is set, "
+    "by value, at the moment Die(...) runs (read from netlist.modules right before every construction; never through "
+    "Netlist.rectangles / fixed_rectangles(), which are operations of the history); mutators used: Netlist.assign_rectangles, "
+    "Module.is_fixed / is_hard, Rectangle.center / shape (new objects or in place), Module.center + recenter_rectangles, "
+    "Netlist.create_squares; not used: Rectangle.fixed set directly, Module.add_rectangle / clear_rectangles / create_square called "
+    "behind the netlist's back, is_fixed set on a module without rectangles (module flag and rectangle flags would disagree: the "
+    "property does not say which counts); flags and STOG location of the reported fixed rectangles are not compared in histories; "
+    "recentring is generated only where the area-weighted centroid is a binary fraction (exact in binary64) in the exact stream; "
+    "sqrt in create_square is external: the square is handed to the model (side generated, area = side^2 exact)",
 ]
 
 TAGS = ["#"] * 10 + ["BRAM", "DSP", "reg1", "_x", "a_9", "Z", "BRAM", "DSP",
@@ -1491,7 +1500,7 @@ def shrink(case):
 def nontrivial(case):
     regs = case["tree"].get("regions") if isinstance(case.get("tree"), dict) else None
     n = (len(regs) if isinstance(regs, list) and regs and isinstance(regs[0], list) else (1 if regs else 0))
-    return n + len(case["fixed"]) >= 2 or case["stream"] in ("malformed", "badstring") or \
+    return n + len(case["fixed"]) >= 2 or case["stream"] in ("malformed", "badstring") or bool(case.get("nethist")) or \
         (case["stream"] == "sd" and "x" in case["raw"])
 
 
@@ -1522,7 +1531,12 @@ def run(ctx, out, replay=None):
                 "characters) / file name / open stream, each with and without netlist; a third of the cases are histories on the SAME "
                 "objects (the description dict / str / file / rewound stream and the Netlist object handed to 2-4 constructions, with "
                 "and without the netlist in any order, every construction judged; two more constructions when an argument was "
-                "modified) or follow a bare die built with the same netlist; non-trivial = at least two regions or a refused input; distinct by canonical hash")
+                "modified) or follow a bare die built with the same netlist; a fifth of the exact / decimal cases are HISTORIES OF THE "
+                "NETLIST OBJECT: after it was read it is modified through its public mutators (assign_rectangles relocating / extending / "
+                "restoring a module, is_fixed released / set, is_hard, rectangle setters, recenter_rectangles, create_squares + is_fixed; "
+                "relocations go to free lattice boxes, a module fixed where it stands may overlap), with reads of netlist.rectangles / "
+                "num_rectangles / fixed_rectangles() and dies with / without the netlist before, between and after, every construction "
+                "judged against the fixed rectangles the netlist's modules hold at that moment; non-trivial = at least two regions or a refused input; distinct by canonical hash")
     cases = []
     if replay and "case" in replay:
         cases.append(fr.unjson(replay["case"]))
